@@ -453,6 +453,15 @@ func (w *writerA) writeBounds(rule string) {
 				inl = true
 			}
 		}
+		if hs := c.hostsOf(f); !(len(hs) == 1 && hs[0] == f) {
+			all := true
+			for _, h := range hs {
+				if !analysed[h] {
+					all = false
+				}
+			}
+			inl = inl || all // extracted helper explored (inlined) inside analysed methods only
+		}
 		r.Check(rule, shortFn(f), "writer-of-pos", s.Pos(), analysed[f] || inl, "messageWriter.pos is stored by a function outside the analysed writer methods (the store is not covered by the invariant proof)")
 	}
 }
